@@ -436,7 +436,7 @@ func (cfg *LifeCfg) GenAdvance(t *rapid.T, s *Sim) *Action {
 	a := NewAction("advance", 0)
 	h := s.C.Height
 	next := s.Last.NextScheduled(h - 1)
-	cls := rapid.IntRange(0, 6).Draw(t, "advClass")
+	cls := rapid.IntRange(0, 7).Draw(t, "advClass")
 	switch {
 	case cls == 0:
 		a.Blocks = 1
@@ -444,10 +444,28 @@ func (cfg *LifeCfg) GenAdvance(t *rapid.T, s *Sim) *Action {
 		a.Blocks = int64(rapid.IntRange(2, 30).Draw(t, "k"))
 	case cls == 2 && next > h:
 		a.Blocks = next - h // stop in the block before... (boundary after next-1)
-	case cls >= 3 && next >= h:
+	case cls >= 3 && cls <= 5 && next >= h:
 		a.Blocks = next - h + 1 // cross the scheduled height
 		if cls == 5 {
 			a.Blocks += int64(rapid.IntRange(1, 20).Draw(t, "past"))
+		}
+	case cls >= 6:
+		// to (and across) the nearest shard / data expiry
+		best := int64(0)
+		for k := range s.Last.ExpShards {
+			if int64(k) >= h && (best == 0 || int64(k) < best) {
+				best = int64(k)
+			}
+		}
+		for k := range s.Last.ExpData {
+			if int64(k) >= h && (best == 0 || int64(k) < best) {
+				best = int64(k)
+			}
+		}
+		if best > 0 {
+			a.Blocks = best - h + int64(rapid.IntRange(0, 1).Draw(t, "cross"))
+		} else {
+			a.Blocks = int64(rapid.IntRange(1, 700).Draw(t, "k"))
 		}
 	default:
 		a.Blocks = int64(rapid.IntRange(1, 700).Draw(t, "k"))
